@@ -165,6 +165,14 @@ where
             let y = T::deserialize_eps(bytes).map_err(|e| format!("deserialize_eps: {e}"))?;
             Ok(Some(Box::new(Eps::<T> { obj: ManuallyDrop::new(y), buf: ManuallyDrop::new(cur) })))
         }
+        "eps8" => {
+            // the same bytes placed at 8 modulo 16 (a legitimate buffer for ε-serde; leaked)
+            let mut bytes: Vec<u8> = Vec::new();
+            x.serialize(&mut bytes).map_err(|e| format!("serialize: {e}"))?;
+            let st = crate::util::leak_aligned(&bytes, true);
+            let y = T::deserialize_eps(st).map_err(|e| format!("deserialize_eps: {e}"))?;
+            Ok(Some(Box::new(Eps::<T> { obj: ManuallyDrop::new(y), buf: ManuallyDrop::new(Box::new(AlignedCursor::new())) })))
+        }
         "mmap" => {
             let dir = std::env::temp_dir();
             let path = dir.join(format!(
